@@ -123,19 +123,21 @@ def optionList : List String → List String → P (List String × List String)
     let acc' := if tok != "]" then rstripC ']' tok :: acc else acc
     if tok.endsWith "]" then pure (acc'.reverse, rest) else optionList rest acc'
 
-def optTie (pr : Prof) (l : List String) : P Prof := do
-  let r ← l.foldlM (fun (acc : List (Nat × Nat) × Nat) tok => do
+def optTie (pr : Prof) (l : List String) : P Prof :=
+  match (l.foldlM (fun (acc : List (Nat × Nat) × Nat) tok => do
       let cid ← getCid pr tok
-      pure (dictSet acc.1 cid (acc.2 + 1), acc.2 + 1)) ([], 0)
-  if r.1.length != pr.nCand then throw .profile
-  pure { pr with tieOrder := r.1 }
+      pure (dictSet acc.1 cid (acc.2 + 1), acc.2 + 1)) ([], 0) : P (List (Nat × Nat) × Nat)) with
+  | .error e => .error e
+  | .ok r => if r.1.length != pr.nCand then throw .profile else pure { pr with tieOrder := r.1 }
 
-def optNick (pr : Prof) (l : List String) : P Prof := do
+def optNick (pr : Prof) (l : List String) : P Prof :=
   if l.length != pr.nCand then throw .profile
-  let r ← l.foldlM (fun (acc : List (String × Nat) × Nat) nick => do
-      if acc.1.any (·.1 == nick) then throw .profile
-      pure (acc.1 ++ [(nick, acc.2 + 1)], acc.2 + 1)) ([], 0)
-  pure { pr with nickCid := r.1 }
+  else
+    match (l.foldlM (fun (acc : List (String × Nat) × Nat) nick => do
+        if acc.1.any (·.1 == nick) then throw PErr.profile
+        pure (acc.1 ++ [(nick, acc.2 + 1)], acc.2 + 1)) ([], 0) : P (List (String × Nat) × Nat)) with
+    | .error e => .error e
+    | .ok r => pure { pr with nickCid := r.1 }
 
 def optSet (pr : Prof) (cur : List Nat) (l : List String) : P (List Nat) :=
   l.foldlM (fun acc tok => do
@@ -143,39 +145,56 @@ def optSet (pr : Prof) (cur : List Nat) (l : List String) : P (List Nat) :=
     if acc.contains cid then throw .profile
     pure (acc ++ [cid])) cur
 
-def bltOption (pr : Prof) (option : String) (rest : List String) : P (Prof × List String) := do
-  let name0 := lstripC '[' option
-  let (name, l, rest') ←
-    if name0.endsWith "]" then pure (rstripC ']' name0, ([] : List String), rest)
-    else do
-      let r ← optionList rest []
-      pure (name0, r.1, r.2)
-  if name == "tie" then pure (← optTie pr l, rest')
-  else if name == "nick" then pure (← optNick pr l, rest')
-  else if name == "droop" then pure ({ pr with options := pr.options ++ l }, rest')
-  else if name == "withdrawn" then pure ({ pr with withdrawn := ← optSet pr pr.withdrawn l }, rest')
-  else if name == "undeclared" then pure ({ pr with undeclared := ← optSet pr pr.undeclared l }, rest')
+/-- name and argument list of a `[...]` option -/
+def bltOptionArgs (option : String) (rest : List String) : P (String × List String × List String) :=
+  if (lstripC '[' option).endsWith "]" then pure (rstripC ']' (lstripC '[' option), ([] : List String), rest)
+  else
+    match optionList rest [] with
+    | .error e => .error e
+    | .ok r => pure (lstripC '[' option, r.1, r.2)
+
+def bltApply (pr : Prof) (name : String) (l : List String) : P Prof :=
+  if name == "tie" then optTie pr l
+  else if name == "nick" then optNick pr l
+  else if name == "droop" then pure { pr with options := pr.options ++ l }
+  else if name == "withdrawn" then
+    match optSet pr pr.withdrawn l with
+    | .error e => .error e
+    | .ok w => pure { pr with withdrawn := w }
+  else if name == "undeclared" then
+    match optSet pr pr.undeclared l with
+    | .error e => .error e
+    | .ok w => pure { pr with undeclared := w }
   else throw .profile
+
+def bltOption (pr : Prof) (option : String) (rest : List String) : P (Prof × List String) :=
+  match bltOptionArgs option rest with
+  | .error e => .error e
+  | .ok (name, l, rest') =>
+    match bltApply pr name l with
+    | .error e => .error e
+    | .ok pr' => pure (pr', rest')
 
 /-- header loop: options, -n withdrawals; stops at the first ballot line (returns that token) -/
 def headerLoop : Nat → Prof → String → List String → P (Prof × String × List String)
   | 0, _, _, _ => throw .profile
   | fuel+1, pr, tok, rest =>
-    if tok.startsWith "[" then do
-      let (pr', rest') ← bltOption pr tok rest
-      match rest' with
-      | [] => throw .profile
-      | t :: r => headerLoop fuel pr' t r
+    if tok.startsWith "[" then
+      match bltOption pr tok rest with
+      | .error e => .error e
+      | .ok (pr', rest') =>
+        match rest' with
+        | [] => throw .profile
+        | t :: r => headerLoop fuel pr' t r
     else if tok.startsWith "(" then pure (pr, tok, rest)
     else if isSignedDigits tok then
-      let wd := - signedToInt tok
-      if wd ≤ 0 then pure (pr, tok, rest)
-      else if wd.toNat > pr.nCand then throw .profile
-      else if pr.withdrawn.contains wd.toNat then throw .profile
+      if - signedToInt tok ≤ 0 then pure (pr, tok, rest)
+      else if (- signedToInt tok).toNat > pr.nCand then throw .profile
+      else if pr.withdrawn.contains (- signedToInt tok).toNat then throw .profile
       else
         match rest with
         | [] => throw .profile
-        | t :: r => headerLoop fuel { pr with withdrawn := pr.withdrawn ++ [wd.toNat] } t r
+        | t :: r => headerLoop fuel { pr with withdrawn := pr.withdrawn ++ [(- signedToInt tok).toNat] } t r
     else throw .profile
 
 /-- join tokens with single spaces until one ends with `close`; none = ran out of tokens -/
@@ -210,25 +229,38 @@ def readRanking (pr : Prof) : List String → List (List Nat) → P (List (List 
       let grp ← (tok.splitOn "=").mapM (getCid pr)
       readRanking pr rest (grp :: acc)
 
+/-- the head of a ballot line: "(ballot id)" (multiplier 1, ids must be distinct) or a multiplier -/
+def ballotHead (ids : List String) (tok : String) (rest : List String) : P (Nat × List String × List String) :=
+  if tok.startsWith "(" then
+    match joinUntil ")" (rest.length + 1) tok rest with
+    | none => throw .profile
+    | some (bid, r) =>
+      if ids.contains (stripC ' ' (rstripC ')' (lstripC '(' bid))) then throw .profile
+      else pure (1, stripC ' ' (rstripC ')' (lstripC '(' bid)) :: ids, r)
+  else if isDigits tok then pure (digitsToNat tok, ids, rest)
+  else throw .profile
+
+/-- a line whose ranking is empty is not stored -/
+def ballotStore (pr : Prof) (mult : Nat) (ranking : List (List Nat)) : P Prof :=
+  if ranking.isEmpty then pure pr else addBallot pr mult ranking
+
 def ballotLoop : Nat → Prof → List String → String → List String → P (Prof × List String × List String)
   | 0, _, _, _, _ => throw .profile
-  | fuel+1, pr, ids, tok, rest => do
-    let (mult, ids', rest1) ←
-      if tok.startsWith "(" then
-        match joinUntil ")" (rest.length + 1) tok rest with
-        | none => throw .profile
-        | some (bid, r) =>
-          let bid' := stripC ' ' (rstripC ')' (lstripC '(' bid))
-          if ids.contains bid' then throw .profile else pure (1, bid' :: ids, r)
-      else if isDigits tok then pure (digitsToNat tok, ids, rest)
-      else throw .profile
-    if mult == 0 then pure (pr, ids', rest1)
-    else
-      let (ranking, rest2) ← readRanking pr rest1 []
-      let pr' ← if ranking.isEmpty then pure pr else addBallot pr mult ranking
-      match rest2 with
-      | [] => throw .profile
-      | t :: r => ballotLoop fuel pr' ids' t r
+  | fuel+1, pr, ids, tok, rest =>
+    match ballotHead ids tok rest with
+    | .error e => .error e
+    | .ok (mult, ids', rest1) =>
+      if mult == 0 then pure (pr, ids', rest1)
+      else
+        match readRanking pr rest1 [] with
+        | .error e => .error e
+        | .ok (ranking, rest2) =>
+          match ballotStore pr mult ranking with
+          | .error e => .error e
+          | .ok pr' =>
+            match rest2 with
+            | [] => throw .profile
+            | t :: r => ballotLoop fuel pr' ids' t r
 
 def readNames : Nat → Nat → Prof → List String → P (Prof × List String)
   | 0, _, pr, rest => pure (pr, rest)
@@ -262,44 +294,58 @@ structure Profile where
   pr : Prof
   eligible : List Nat
 
-/-- everything up to the optional source / comment strings -/
-def parseCore (toks : List String) : P Prof := do
+/-- after the candidate names: title, then optionally source and comment -/
+def parseTail (pr3 : Prof) (rest3 : List String) : P Prof :=
+  match rest3 with
+  | [] => throw .profile
+  | tt :: r4 =>
+    if !tt.startsWith "\"" then throw .profile
+    else
+      match quoted tt r4 with
+      | .error e => .error e
+      | .ok (title, r5) =>
+        match r5 with
+        | [] => pure { pr3 with title := title }
+        | ts :: r6 =>
+          if !ts.startsWith "\"" then pure { pr3 with title := title }
+          else
+            match quoted ts r6 with
+            | .error e => .error e
+            | .ok (src, r7) =>
+              match r7 with
+              | [] => pure { pr3 with title := title, source := some src }
+              | tc :: r8 =>
+                if !tc.startsWith "\"" then pure { pr3 with title := title, source := some src }
+                else
+                  match quoted tc r8 with
+                  | .error e => .error e
+                  | .ok (cm, _) => pure { pr3 with title := title, source := some src, comment := some cm }
+
+def parseCore (toks : List String) : P Prof :=
   match toks with
   | [] => throw .profile
   | t1 :: r1 =>
     if !isDigits t1 then throw .profile
-    match r1 with
-    | [] => throw .profile
-    | t2 :: r2 =>
-      if !isDigits t2 then throw .profile
-      let pr0 : Prof := { nCand := digitsToNat t1, nSeats := digitsToNat t2 }
-      match r2 with
+    else
+      match r1 with
       | [] => throw .profile
-      | t3 :: r3 =>
-        let (pr1, tok, rest) ← headerLoop (r2.length + 1) pr0 t3 r3
-        let (pr2, ids, rest2) ← ballotLoop (rest.length + 2) pr1 [] tok rest
-        if !ids.isEmpty && ids.length != pr2.ballotLines.length then throw .profile
-        let (pr3, rest3) ← readNames pr2.nCand 1 pr2 rest2
-        match rest3 with
-        | [] => throw .profile
-        | tt :: r4 =>
-          if !tt.startsWith "\"" then throw .profile
-          let (title, r5) ← quoted tt r4
-          let pr4 := { pr3 with title := title }
-          match r5 with
-            | [] => pure pr4
-            | ts :: r6 =>
-              if !ts.startsWith "\"" then pure pr4
-              else do
-                let (src, r7) ← quoted ts r6
-                let pr5 := { pr4 with source := some src }
-                match r7 with
-                | [] => pure pr5
-                | tc :: r8 =>
-                  if !tc.startsWith "\"" then pure pr5
-                  else do
-                    let (cm, _) ← quoted tc r8
-                    pure { pr5 with comment := some cm }
+      | t2 :: r2 =>
+        if !isDigits t2 then throw .profile
+        else
+          match r2 with
+          | [] => throw .profile
+          | t3 :: r3 =>
+            match headerLoop (r2.length + 1) { nCand := digitsToNat t1, nSeats := digitsToNat t2 } t3 r3 with
+            | .error e => .error e
+            | .ok (pr1, tok, rest) =>
+              match ballotLoop (rest.length + 2) pr1 [] tok rest with
+              | .error e => .error e
+              | .ok (pr2, ids, rest2) =>
+                if !ids.isEmpty && ids.length != pr2.ballotLines.length then throw .profile
+                else
+                  match readNames pr2.nCand 1 pr2 rest2 with
+                  | .error e => .error e
+                  | .ok (pr3, rest3) => parseTail pr3 rest3
 
 def eligibleOf (pr : Prof) : List Nat :=
   (List.range pr.nCand).map (· + 1) |>.filter (fun c => !pr.withdrawn.contains c)
